@@ -4,5 +4,5 @@ CONSTANTS
   Workers = {1, 2}
   MaxT = 1
   MaxSizes = {0, 1}
-  Variant = "code"
+  Variant = "early_timer"
 INVARIANTS TypeOK AtMostOnce NeverEarly CancelHonoured CancelRemoves QuietDelivered QuietShutdown
